@@ -3001,46 +3001,40 @@ const is64bit = (1 << (^uintptr(0) >> 63) / 2) == 1
 // where t is a signed or unsigned int type.
 func makeInt(f flag, bits uint64, t Type) Value {
 	typ := t.common()
-	var ptr unsafe.Pointer
+	ptr := unsafe_New(typ)
 	switch typ.Size() {
-	case 1, 2, 4:
-		ptr = unsafe.Pointer(uintptr(bits))
+	case 1:
+		*(*uint8)(ptr) = uint8(bits)
+	case 2:
+		*(*uint16)(ptr) = uint16(bits)
+	case 4:
+		*(*uint32)(ptr) = uint32(bits)
 	case 8:
-		if is64bit {
-			ptr = unsafe.Pointer(uintptr(bits))
-		} else {
-			ptr = unsafe_New(typ)
-			*(*uint64)(ptr) = bits
-			f |= flagIndir
-		}
+		*(*uint64)(ptr) = bits
 	}
-	return Value{typ, ptr, f | flag(typ.Kind())}
+	return Value{typ, ptr, f | flagIndir | flag(typ.Kind())}
 }
 
 // makeFloat returns a Value of type t equal to v (possibly truncated to float32),
 // where t is a float32 or float64 type.
 func makeFloat(f flag, v float64, t Type) Value {
 	typ := t.common()
-	var ptr unsafe.Pointer
+	ptr := unsafe_New(typ)
 	switch typ.Size() {
 	case 4:
-		ptr = unsafe.Pointer(uintptr(bitcast.FromFloat32(float32(v))))
+		*(*float32)(ptr) = float32(v)
 	case 8:
-		if is64bit {
-			ptr = unsafe.Pointer(uintptr(bitcast.FromFloat64(v)))
-		} else {
-			ptr = unsafe_New(typ)
-			*(*float64)(ptr) = v
-			f |= flagIndir
-		}
+		*(*float64)(ptr) = v
 	}
-	return Value{typ, ptr, f | flag(typ.Kind())}
+	return Value{typ, ptr, f | flagIndir | flag(typ.Kind())}
 }
 
 // makeFloat32 returns a Value of type t equal to v, where t is a float32 type.
-func makeFloat32(f flag, ptr unsafe.Pointer, t Type) Value {
+func makeFloat32(f flag, v float32, t Type) Value {
 	typ := t.common()
-	return Value{typ, ptr, f | flag(typ.Kind())}
+	ptr := unsafe_New(typ)
+	*(*float32)(ptr) = v
+	return Value{typ, ptr, f | flagIndir | flag(typ.Kind())}
 }
 
 // makeComplex returns a Value of type t equal to v (possibly truncated to complex64),
@@ -3119,7 +3113,13 @@ func cvtFloat(v Value, t Type) Value {
 		// Don't do any conversion if both types have underlying type float32.
 		// This avoids converting to float64 and back, which will
 		// convert a signaling NaN to a quiet NaN. See issue 36400.
-		return makeFloat32(v.flag.ro(), v.ptr, t)
+		var f32 float32
+		if v.flag&flagIndir != 0 {
+			f32 = *(*float32)(v.ptr)
+		} else {
+			f32 = bitcast.ToFloat32(int32(uintptr(v.ptr)))
+		}
+		return makeFloat32(v.flag.ro(), f32, t)
 	}
 	return makeFloat(v.flag.ro(), v.Float(), t)
 }
